@@ -120,7 +120,10 @@ call does on a fixed-length file holding the bytes of the view's range: same ret
 truncation warning exactly when fewer bytes are transferred than requested, position advanced
 by the bytes transferred, the view's bytes afterwards are the file's bytes, one controller
 access of exactly the transferred bytes at the position (none when nothing is transferred),
-every address outside the view's range keeps its content, no other view changes. -/
+every address outside the view's range keeps its content, no other view changes.
+This includes calls whose transfer FAILS (`readFail`, `writeFail`: the controller raises): the
+controller's error is raised, the position does not move, a failed read delivers nothing, a
+failed write leaves in the view exactly the bytes the machine stored before the fault. -/
 theorem step_refines_file (w : World) (op : Op) (v : View) (hv : w.views[op.target]? = some v)
     (hlive : dead w v = false) (hwf : v.start ≤ v.stop) (hio : op.isIO = true)
     (hk : ∀ i n, op = .seek i n 2 → n = 0) :
@@ -130,6 +133,8 @@ theorem step_refines_file (w : World) (op : Op) (v : View) (hv : w.views[op.targ
   cases op with
   | read i n => exact read_refines w i v n hv hlive hwf
   | write i d => exact write_refines w i v d hv hlive hwf
+  | readFail i n => exact readFail_refines w i v n hv hlive hwf
+  | writeFail i d j => exact writeFail_refines w i v d j hv hlive hwf
   | seek i n wh => exact seek_refines w i v n wh hv hlive hwf (fun h => hk i n (by rw [h]))
   | tell i =>
     refine ⟨_, rfl, ?_⟩
@@ -175,6 +180,75 @@ theorem run_refines_file (ops : List Op) : ∀ (w : World) (i : Nat) (v : View),
     have hf : absFile w.mem v = ⟨(absFile w.mem v).data, v.offset⟩ := rfl
     rw [hf] at hs
     simp only [run, List.map_cons, specRun, hs, this, hdata, hout]
+
+/-- **A failed read moves nothing** (any world, any position, live or dead view): when the
+controller's read raises, the world is exactly what it was - position, bounds, flags of every view
+and memory - and the call either raised the controller's error or no transfer was needed and it is
+an ordinary `read`. -/
+theorem failed_read_moves_nothing (w : World) (i : Nat) (n : Int) :
+    (step w (.readFail i n)).1 = w ∧
+    ((step w (.readFail i n)).2.ret = .err .transferError ∨ step w (.readFail i n) = step w (.read i n)) := by
+  unfold step
+  simp only [Op.target]
+  split
+  · exact ⟨rfl, Or.inr rfl⟩
+  · rename_i v hv
+    simp only [stepView, doReadFail, doRead, fail]
+    generalize readCount v n = rc
+    obtain ⟨wn, k⟩ := rc
+    simp only
+    split
+    · exact ⟨rfl, Or.inr rfl⟩
+    · split
+      · exact ⟨rfl, Or.inr rfl⟩
+      · exact ⟨rfl, Or.inl rfl⟩
+
+/-- **A failed write moves nothing**: when the controller's write raises after storing the first
+`j` bytes it was handed, no view changes (position, bounds, flags), the allocation is not freed,
+and memory outside the view's range is untouched (what the machine stored lies inside it). -/
+theorem failed_write_moves_nothing (w : World) (i : Nat) (d : List Nat) (j : Nat) :
+    (step w (.writeFail i d j)).1.views = w.views ∧ (step w (.writeFail i d j)).1.freed = w.freed ∧
+    (∀ v, w.views[i]? = some v → ∀ a, a < v.start ∨ v.stop ≤ a →
+      (step w (.writeFail i d j)).1.mem a = w.mem a) ∧
+    ((step w (.writeFail i d j)).2.ret = .err .transferError ∨
+      step w (.writeFail i d j) = step w (.write i d)) := by
+  unfold step
+  simp only [Op.target]
+  split
+  · exact ⟨rfl, rfl, fun _ _ _ _ => rfl, Or.inr rfl⟩
+  · rename_i v hv
+    simp only [stepView, doWriteFail, doWrite, fail]
+    have hle := writeData_le v d
+    generalize writeData v d = rc at hle
+    obtain ⟨wn, d'⟩ := rc
+    simp only at hle ⊢
+    split
+    · exact ⟨rfl, rfl, fun _ _ _ _ => rfl, Or.inr rfl⟩
+    · split
+      · exact ⟨rfl, rfl, fun _ _ _ _ => rfl, Or.inr rfl⟩
+      · refine ⟨rfl, rfl, ?_, Or.inl rfl⟩
+        intro u hu a ha
+        rw [hv] at hu
+        cases hu
+        rename_i hne _
+        have hpos : 0 < d'.length := by omega
+        have hp := available_pos v (by omega)
+        have hlj : (d'.take j).length ≤ d'.length := by simp; omega
+        apply writeMem_outside
+        unfold View.address at *
+        omega
+
+/-- a read that advanced the position before the transfer would break this: the failed
+`read(4)` at position 4 of a 24-byte view leaves the position at 8 although nothing was
+transferred; the code (and the file specification) leave it at 4 -/
+theorem early_offset_update_breaks_failed_read :
+    let w : World := ⟨1, 2, false, [⟨1000, 1024, 4, false⟩], fun _ => 0⟩
+    let v : View := ⟨1000, 1024, 4, false⟩
+    (doReadFailEarly w 0 v 4).1.views = [⟨1000, 1024, 8, false⟩] ∧
+    (step w (.readFail 0 4)).1.views = [v] ∧
+    (step w (.readFail 0 4)).2 = ⟨.err .transferError, false, some (.read 1004 4 1 2 0)⟩ ∧
+    (specIO v ⟨List.replicate 24 0, 4⟩ (.readFail 0 4)).map (·.post) = some v := by
+  decide
 
 /-- **Reads return the bytes last written** (through whichever view they were written):
 memory holds the written bytes at the written addresses and is unchanged elsewhere. -/
@@ -316,6 +390,14 @@ example : specRun (mkView 1000 1004) [1, 2, 3, 4]
       [.seek 0 2 0, .read 0 5, .write 0 [9], .seek 0 (-1) 1, .write 0 [8, 8], .seek 0 0 0, .read 0 (-1)]
     = [(.none, false), (.bytes [3, 4], true), (.int 0, true), (.none, false), (.int 1, true),
        (.none, false), (.bytes [1, 2, 3, 8], false)] := by decide
+
+/-- histories with failing transfers: a failed read, tell, the retry, a write failing after one
+byte, tell, read everything back -/
+example : specRun (mkView 1000 1004) [1, 2, 3, 4]
+      [.readFail 0 2, .tell 0, .read 0 2, .writeFail 0 [9, 9, 9] 1, .tell 0, .seek 0 0 0, .read 0 (-1)]
+    = [(.err .transferError, false), (.int 0, false), (.bytes [1, 2], false),
+       (.err .transferError, true), (.int 2, false), (.none, false), (.bytes [1, 2, 9, 4], false)] := by
+  decide
 
 /-- a nested slice with negative bounds: `f[2:9][-4:-1]` of a view at 1000 is `[1005, 1008)` -/
 example : specSlice (specSlice (mkView 1000 1010) (some 2) (some 9)) (some (-4)) (some (-1))
